@@ -104,6 +104,8 @@ func decodeAmmo(jsonDoc []byte, am *ammo.Ammo) (*ammo.Ammo, error) {
 	var ammo ammo.Ammo
 	err := jsoniter.Unmarshal(jsonDoc, &ammo)
 	if err != nil {
+		// am comes from the pool: what an earlier entry left in it must not be shot in place of this line
+		am.Reset("", "", nil, nil)
 		return am, errors.WithStack(err)
 	}
 
